@@ -98,6 +98,9 @@ TEMPLATES = {
   # LLDPDU whose three mandatory TLV headers are fixed (chassis id len 7, port id len 3, ttl len 2); the bodies of these and the
   # whole 4th TLV (type, length, body) and everything after it are symbolic
   'lldp4':     lambda n: ETH + [0x88, 0xcc],
+  # complete LLDPDU (chassis id, port id, TTL, END) whose chassis / port identifiers have the lengths a network address (1 family byte + 4 or 16) or a
+  # MAC takes; the subtypes, the family byte and every identifier byte are symbolic
+  'lldp_ids_5_5': lambda n: ETH + [0x88, 0xcc], 'lldp_ids_17_5': lambda n: ETH + [0x88, 0xcc], 'lldp_ids_5_17': lambda n: ETH + [0x88, 0xcc], 'lldp_ids_6_17': lambda n: ETH + [0x88, 0xcc],
   # IPv4/TCP segment with a long payload: data offset and the option bytes symbolic, everything else concrete - an option whose length
   # byte reaches far beyond the TCP header
   'tcp_long':  lambda n: ETH + [0x08, 0x00],
@@ -228,6 +231,10 @@ def h_template(ctx, name, n, proto=None, ports=None):
     sym = body
     body = []
     for i in range(k): body += [0, (i >> 4) & 0xff, ((i & 15) << 4) | (0 if i < k - 1 else 1), 64] if i >= 2 else [sym[4 * i], sym[4 * i + 1], sym[4 * i + 2] & 0xfe, sym[4 * i + 3]]
+  if name.startswith('lldp_ids_'):
+    cl, pl = [int(x) + 1 for x in name.split('_')[2:]]
+    body[0:2] = [2, cl]; body[2 + cl:4 + cl] = [4, pl]
+    body[4 + cl + pl:] = [6, 2, body[4 + cl + pl + 2], body[4 + cl + pl + 3], 0, 0]
   if name == 'lldp4' and len(body) >= 18:
     body[0:2] = [2, 7]; body[9:11] = [4, 3]; body[14:16] = [6, 2]
   if name == 'ipv6' and len(body) >= 40:
@@ -254,6 +261,7 @@ def obligations(tier):
                      ('mpls', [14, 18, 22]), ('llc', [14, 17, 18, 22, 24]), ('ipv6', [14, 30, 54, 58])):
     for n in lens: t.append(dict(name=name, n=n))
   for n in [32, 34, 36] + ([38] if thorough else []): t.append(dict(name='lldp4', n=n))
+  for a, b in ((5, 5), (17, 5), (5, 17), (6, 17)): t.append(dict(name='lldp_ids_%d_%d' % (a, b), n=14 + 2 + a + 1 + 2 + b + 1 + 4 + 2))
   t.append(dict(name='rip_entry', n=24)); t.append(dict(name='dns_name4', n=14 + 9)); t.append(dict(name='nd_lladdr', n=14 + 10)); t.append(dict(name='tcp_long', n=330)); t.append(dict(name='tcp_mptcp', n=90)); t.append(dict(name='tcp_mptcp40', n=110)); t.append(dict(name='dhcp_long', n=30))
   for n in (1378, 1458, 1514): t.append(dict(name='vlan_stack', n=n))
   for n in (1378, 1514): t.append(dict(name='mpls_stack', n=n))
